@@ -32,6 +32,16 @@ def bad_body(name: str) -> bytes:
     return b'{"jsonrpc": "2.0", "method": "noargs", "id": "\x80"}'
 
 
+def nested_for(ps: str, codec: str, s: str, e: str, beh: Any) -> Any:
+    """where the extra endpoint lives: on the integration object itself (False), on an aiohttp sub-application / flask blueprint handed to
+    add_endpoint (True), or - aiohttp - on a JSON-RPC application of its own mounted with add_subapp ('app'; flask: blueprint)"""
+    if e != 'prefix' or ps != 'plain':
+        return False
+    if codec == 'default' and s == 'default' and len(beh) % 2 == 0:
+        return True
+    return 'app' if len(beh) % 2 == 1 else False
+
+
 class C18(Check):
     pid = 'C18'
     level = 'exploration'
@@ -59,7 +69,7 @@ class C18(Check):
     required_classes = ['media/documented-bare', 'media/documented-params', 'media/case-variant', 'media/near-miss', 'media/unrelated', 'media/missing',
                         'body/non-utf8', 'body/nothing-returned', 'body/batch', 'body/not-json', 'status/non-default', 'endpoint/prefix',
                         'integration/aiohttp', 'integration/flask', 'integration/werkzeug', 'codec/custom', 'codec/custom/took-effect',
-                        'endpoint/prefix-registered-with-trailing-slash', 'endpoint/on-subapp-or-blueprint', 'status/function-consulting-a-table',
+                        'endpoint/prefix-registered-with-trailing-slash', 'endpoint/on-subapp-or-blueprint', 'status/function-consulting-a-table', 'endpoint/mounted-json-rpc-application',
                         'config/default-content-type', 'config/default-content-type/posted']
 
     def strategy(self, tier: str):
@@ -79,7 +89,7 @@ class C18(Check):
         return st.builds(
             lambda m, b, s, e, beh, base, codec, ps, dct, tbl: {'media': m, 'body': b, 'status': s, 'endpoint': e, 'behaviours': beh, 'base': base, 'codec': codec,
                                                       'default_ct': dct, 'table': tbl,
-                                                      'prefix_style': ps, 'nested': ps == 'plain' and codec == 'default' and s == 'default' and e == 'prefix' and len(beh) % 2 == 0},
+                                                      'prefix_style': ps, 'nested': nested_for(ps, codec, s, e, beh)},
             s_media, s_body, st.sampled_from(['default', 'default'] + [k for k in httpapps.STATUS_FUNCS if k != 'default']),
             st.sampled_from(['base', 'base', 'prefix']), stdreg.behaviours(), st.sampled_from(['/api', '/api/v1', '/rpc']),
             st.sampled_from(['default', 'default', 'custom']), st.sampled_from(['plain', 'trailing-slash']),
@@ -105,6 +115,9 @@ class C18(Check):
             {**base, 'media': 'application/json', 'endpoint': 'prefix', 'prefix_style': 'trailing-slash', 'body': t(call)},
             {**base, 'media': 'application/json', 'endpoint': 'prefix', 'nested': True, 'body': t([call, {'jsonrpc': '2.0', 'id': 2, 'method': 'where_sub'}])},
             {**base, 'media': 'application/json', 'endpoint': 'base', 'nested': True, 'body': t(call)},
+            {**base, 'media': 'application/json', 'endpoint': 'prefix', 'nested': 'app', 'status': 'any-error-500', 'body': t([call, {'jsonrpc': '2.0', 'id': 2, 'method': 'nope'}])},
+            {**base, 'media': 'application/json', 'endpoint': 'prefix', 'nested': 'app', 'body': t([call, {'jsonrpc': '2.0', 'id': 2, 'method': 'nope'}])},
+            {**base, 'media': 'application/json', 'endpoint': 'base', 'nested': 'app', 'status': 'count', 'body': t(call)},
             {**base, 'media': '$default', 'default_ct': 'application/vnd.acme.rpc', 'body': t(call)},
             {**base, 'media': 'text/plain', 'body': t(call)},
             {**base, 'media': 'application/json', 'default_ct': 'text/plain', 'body': t(call)},
@@ -151,7 +164,7 @@ class C18(Check):
             status_name = spec['status'] if integration != 'werkzeug' else 'default'
             endpoint = spec['endpoint'] if integration != 'werkzeug' else 'base'
             codec = spec.get('codec', 'default')
-            post, dispatcher_for = httpapps.get_app(integration, status_name, spec['base'], codec, spec.get('prefix_style', 'plain'), bool(spec.get('nested')))
+            post, dispatcher_for = httpapps.get_app(integration, status_name, spec['base'], codec, spec.get('prefix_style', 'plain'), spec.get('nested') or False)
             sentinel = object()
             hm.RT.reset(sentinel, behaviours, error_builder=sh.build_error)
             where = f"{integration}: {where0}"
@@ -181,7 +194,8 @@ class C18(Check):
             hm.RT.reset(sentinel, behaviours, error_builder=sh.build_error)
             direct = hm.run_dispatch(dkind, dispatcher, text, None)
             direct_log = [{'method': e['method'], 'args': e['args']} for e in hm.RT.log]
-            fn = httpapps.STATUS_FUNCS[status_name]
+            own_fn = integration == 'aiohttp' and spec.get('nested') == 'app' and endpoint == 'prefix'     # a mounted application answers with ITS status function
+            fn = httpapps.STATUS_FUNCS[httpapps.sub_status(status_name) if own_fn else status_name]
             if direct is None:
                 want_status, want_doc = 200, ref.NOTHING
             else:
@@ -215,7 +229,7 @@ class C18(Check):
                 discs.append(Disc(f"C18/{integration}/executions", f"http {jg.short(http_log)} direct {jg.short(direct_log)} | {where}"))
             if endpoint != spec['endpoint']:
                 continue      # werkzeug has no extra endpoints: it served another registry, nothing to compare
-            observations[integration] = (status, got_doc) if status_name == spec['status'] else (None, got_doc)
+            observations[integration] = (status, got_doc) if status_name == spec['status'] and not own_fn else (None, got_doc)
         # differential between integrations
         names = sorted(observations)
         for a in names:
@@ -266,6 +280,8 @@ class C18(Check):
             classes.append('endpoint/prefix')
             if spec.get('prefix_style', 'plain') != 'plain':
                 classes.append('endpoint/prefix-registered-with-trailing-slash')
+            if spec.get('nested') == 'app':
+                classes.append('endpoint/mounted-json-rpc-application')
             if spec.get('nested'):
                 classes.append('endpoint/on-subapp-or-blueprint')
         if spec.get('codec', 'default') != 'default':
